@@ -29,7 +29,7 @@ MANIFEST = {
                  'native replay; random trajectories with scale factors as bounded stand-in',
 }
 UNITS = ['unit_formulas', 'unit_center_of_mass', 'unit_speed_freq', 'unit_amplitudes', 'unit_std', 'unit_lemmas', 'unit_dependencies']
-BOUNDED = ['bounded_metrics']
+BOUNDED = ['bounded_metrics', 'bounded_purity']
 META = {'clauses': {'formulas': 'P', 'scaling': 'P (lemmas over the formulas) + A (periodogram homogeneity)', 'amplitudes partition': 'P (loop invariant over the real splitting + telescoping lemmas)',
                     'identical motion => Haven 1': 'P (lemma) + B'},
         'not_decided': ['meanfreq / periodogram internals (assumed homogeneity), numpy.array_split contract (assumed; its preconditions are obligations)']}
@@ -577,3 +577,10 @@ def bounded_metrics(tier, seed):
         if r['reproduced']:
             st.violation('metrics', r['detail'], 'verif.props.c14:replay_metrics', inp)
     return st.result()
+
+
+# generic purity stand-in (arguments unchanged, second call equal, fresh call equal) over this property's API calls
+from verif.native.purity import make_bounded as _make_purity  # noqa: E402
+from verif.props.purity_reg import REG as _PURITY_REG  # noqa: E402
+PURITY = _PURITY_REG['C14']
+bounded_purity = _make_purity('C14', PURITY)
